@@ -348,8 +348,13 @@ func c09GenInput(rng *rand.Rand, self string) c09Input {
 		}
 		ent := []string{"NotifyJoin", "NotifyUpdate", "NotifyMerge", "NotifyAlive", "NotifyLeave"}[rng.Intn(5)]
 		return c09Input{Entry: ent, Class: cls, Buf: meta, Aux: int64(rng.Intn(6))}
-	case x < 96:
+	case x < 95:
 		return c09Input{Entry: "NotifyConflict", Class: "conflict", Aux: int64(rng.Intn(4))}
+	case x < 97:
+		// replies to a query the node itself is running (with / without acks requested, relay factor):
+		// header fields of the reply (flags, from, id, time) take boundary values, payload arbitrary
+		b, c := c09GenMsg(rng, self)
+		return c09Input{Entry: "QueryReply", Class: "queryreply/" + c, Buf: b, Aux: int64(rng.Intn(4))}
 	default:
 		b, c := c09GenMsg(rng, self)
 		return c09Input{Entry: "KeyReply", Class: "keyreply/" + c, Buf: b, Aux: int64(rng.Intn(3))}
@@ -512,7 +517,7 @@ func c09Child(t *testing.T, spec string) {
 									if k == 0 {
 										pl = wire.Encode(wire.ConflictResponse, nil)
 									}
-									conf.NotifyMsg(wire.Encode(wire.QueryResponse, &wire.MsgQueryResponse{LTime: q.LTime, ID: q.ID, From: fmt.Sprint("peer", k), Payload: pl}))
+									conf.NotifyMsg(wire.Encode(wire.QueryResponse, &wire.MsgQueryResponse{LTime: q.LTime, ID: q.ID, From: fmt.Sprint("peer", k), Flags: []uint32{0, 0, 1, 3, math.MaxUint32}[rng.Intn(5)], Payload: pl}))
 								}
 							}
 						}
@@ -521,6 +526,64 @@ func c09Child(t *testing.T, spec string) {
 					conf.ML.Conflict.NotifyConflict(local, cluster.FakeNode("self", "", 0, nil))
 				}
 				time.Sleep(20 * time.Second) // let the resolution query time out
+			case "QueryReply":
+				params := nd.S.DefaultQueryParams()
+				params.RequestAck = in.Aux&1 == 1
+				params.Timeout = 5 * time.Second
+				if in.Aux&2 != 0 {
+					params.RelayFactor = 2
+				}
+				resp, qerr := nd.S.Query("app-query", []byte("x"), params)
+				synctest.Wait()
+				if qerr == nil {
+					drained := make(chan struct{})
+					go func() {
+						defer close(drained)
+						ack, rsp := resp.AckCh(), resp.ResponseCh()
+						for ack != nil || rsp != nil {
+							select {
+							case _, ok := <-ack:
+								if !ok {
+									ack = nil
+								}
+							case _, ok := <-rsp:
+								if !ok {
+									rsp = nil
+								}
+							}
+						}
+					}()
+					for _, m := range nd.DrainBroadcasts() {
+						if m[0] != wire.Query {
+							continue
+						}
+						var q wire.MsgQuery
+						if wire.Decode(m[1:], &q) != nil || q.Name != "app-query" {
+							continue
+						}
+						flags := []uint32{0, 1, 2, 3, 1 << 31, math.MaxUint32, rng.Uint32()}
+						froms := []string{"peer1", "peer2", "", "self", "ghost", strings.Repeat("f", 300)}
+						for k := 0; k < 8; k++ {
+							r := wire.MsgQueryResponse{LTime: q.LTime, ID: q.ID, From: froms[rng.Intn(len(froms))], Flags: flags[rng.Intn(len(flags))], Payload: in.Buf}
+							switch rng.Intn(8) {
+							case 0:
+								r.ID++
+							case 1:
+								r.LTime += uint64(rng.Intn(3)) - 1
+							case 2:
+								r.Payload = nil
+							}
+							msg := wire.Encode(wire.QueryResponse, &r)
+							if rng.Intn(6) == 0 {
+								msg = c09ByteMutate(rng, msg)
+							}
+							stats["query_replies_injected"]++
+							nd.NotifyMsg(msg)
+						}
+					}
+					time.Sleep(6 * time.Second) // the query times out and closes its channels
+					<-drained
+				}
 			case "KeyReply":
 				// a key operation of the keyed node receives arbitrary reply payloads
 				done := make(chan struct{})
@@ -540,7 +603,7 @@ func c09Child(t *testing.T, spec string) {
 					if m[0] == wire.Query {
 						var q wire.MsgQuery
 						if wire.Decode(m[1:], &q) == nil {
-							keyed.NotifyMsg(wire.Encode(wire.QueryResponse, &wire.MsgQueryResponse{LTime: q.LTime, ID: q.ID, From: "peer1", Payload: in.Buf}))
+							keyed.NotifyMsg(wire.Encode(wire.QueryResponse, &wire.MsgQueryResponse{LTime: q.LTime, ID: q.ID, From: "peer1", Flags: []uint32{0, 0, 1, 3, math.MaxUint32}[rng.Intn(5)], Payload: in.Buf}))
 							keyed.NotifyMsg(wire.Encode(wire.QueryResponse, &wire.MsgQueryResponse{LTime: q.LTime, ID: q.ID, From: "peer2", Payload: c09ByteMutate(rng, wire.Encode(wire.KeyResponse, &wire.NodeKeyResponse{Result: true, Keys: []string{"k"}}))}))
 						}
 					}
